@@ -721,7 +721,10 @@ class NormalizedString(String):
     def serialize(self):
         s = self.__parent.serialize()
         prefixLen = len(self._name) + 2
-        lines = textwrap.wrap(s, width=76-prefixLen)
+        # Lines are only broken at spaces: open_registry joins a continuation
+        # line with its indentation, which normalizes back to that one space.
+        lines = textwrap.wrap(s, width=max(1, 76-prefixLen),
+                              break_long_words=False, break_on_hyphens=False)
         last = len(lines)-1
         for (i, line) in enumerate(lines):
             if i != 0:
